@@ -221,3 +221,30 @@ func ZzvC08Twin() {
 	zzverif.Assert(got <= r.nodeCPU, "twin: estimate <= reported usage (false)")
 	zzverif.Reach("end")
 }
+
+// ZzvC08Filter: the threshold test of the filter. For allocatable amounts that are powers of two the float
+// computation round(estimated/total*100) is exact, so the verdict must be: pass iff in every thresholded
+// resource 200*estimated < (2*threshold+1)*total (utilisation rounded to a whole percent is at or below
+// the configured percentage).
+func ZzvC08Filter() {
+	p := &Plugin{vectorizer: NewResourceVectorizer(corev1.ResourceCPU, corev1.ResourceMemory)}
+	pod := &corev1.Pod{ObjectMeta: metav1.ObjectMeta{Namespace: "ns", Name: "p"}}
+	n := 2
+	thr := make(ResourceVector, n)
+	est := make(ResourceVector, n)
+	alloc := make(ResourceVector, n)
+	pass := true
+	for i := 0; i < n; i++ {
+		is := string(rune('0' + i))
+		thr[i] = zzverif.Int64("threshold"+is, 0, 100)
+		est[i] = zzverif.Int64("estimated"+is, 0, 1<<40)
+		alloc[i] = []int64{0, 1 << 12, 1 << 16, 1 << 35}[zzverif.Choice("allocatable"+is, 4)]
+		if alloc[i] != 0 {
+			within := zzverif.Or(thr[i] == 0, 200*est[i] < (2*thr[i]+1)*alloc[i])
+			pass = zzverif.And(pass, within)
+		}
+	}
+	status := p.filterNodeUsage("n", pod, thr, est, alloc, zzverif.Choice("aggregated", 2) == 1)
+	zzverif.Assert(zzverif.Iff(status == nil, pass), "the filter passes exactly when the estimated utilisation, rounded to a whole percent, is at or below the threshold in every thresholded resource")
+	zzverif.Reach("end")
+}
